@@ -70,6 +70,12 @@ ASSUMPTIONS = [
     "KDConcatDataset reports no collators (its own property): concat stacks are run without collate function",
     "the real loader uses the fork start method and one pass; InterleavedSampler.get_data_loader passes no keyword arguments to the hook, "
     "so interleaved probe stacks hold no schedule",
+    "cross-interpreter clause: the streams of the first few stacks with registered collators are recomputed in one child interpreter "
+    "(python -m kdv.h09_child) started with another PYTHONHASHSEED; a child that crashes / times out means 'not compared' "
+    "(monitor xproc_stacks_compared = 0 -> INCONCLUSIVE), never a violation",
+    "a seeded sibling wrapper (built from the same config list as an unseeded one) is only a disturbance: its own draws are a function of "
+    "the index (C08) and are exempt from the worker clauses; deep copies are promised for KDMultiViewWrapper config lists only "
+    "(XTransformWrapper keeps the transform instance it is given, so sharing an instance between wrappers is not driven)",
     "outputs of differently seeded workers are not compared (deterministic layers legitimately agree); only streams are",
 ]
 MONITORS = ["sim_workers_observed", "live_generators_judged", "state_pairs_compared", "raw_sets_compared", "same_seed_pairs_compared",
@@ -80,7 +86,10 @@ MONITORS = ["sim_workers_observed", "live_generators_judged", "state_pairs_compa
             "composite_collator_registered_sim_cases", "composite_collator_registered_loader_cases",
             "samples_fetched_in_parent_sim_cases", "samples_fetched_in_parent_loader_cases", "samples_fetched_in_parent_mix_wrapper_cases",
             "no_mode_wrapper_sim_cases", "no_mode_wrapper_loader_cases", "no_mode_wrapper_with_collators_cases",
-            "concat_member_root_collators_sim_cases", "concat_member_root_collators_loader_cases"]
+            "concat_member_root_collators_sim_cases", "concat_member_root_collators_loader_cases",
+            "seeded_and_unseeded_wrapper_from_one_config_list_cases", "loader_seeded_sibling_draws",
+            "compose_edited_after_construction_sim_cases", "compose_edited_after_construction_loader_cases",
+            "xproc_stacks_compared"]
 
 STEP_LIMIT = 3_000_000
 WITNESSES_PER_KEY = 4
@@ -89,7 +98,7 @@ WITNESSES_PER_KEY = 4
 # ------------------------------------------------------------------------------------------------ generation
 def gen_cases(run):
     rng = run.rng
-    n_sim = run.n(150, 16 * 500)
+    n_sim = run.n(130, 16 * 500)
     n_loader = run.n(24, 16 * 60)
     part = os.environ.get("KDV_C09_PART")       # development aid: run only one half of the check
     if part == "loader":
@@ -101,7 +110,7 @@ def gen_cases(run):
     every = max(1, n_sim // max(1, n_loader))
     made_loader = 0
     for i in range(n_sim):
-        want = {3: "mix", 13: "bare", 23: "concat_collators"}.get(i % 30)     # every family in every run
+        want = {3: "mix", 13: "bare", 23: "concat_collators", 8: "edit", 18: "edit"}.get(i % 30)     # every family in every run
         top = G.gen_sim_stack(rng, want)
         W = rng.choice([1, 1, 2, 3, 4])     # a single worker is re-created per epoch with a new seed as well
         b1 = rng.randrange(2 ** 40)
@@ -119,7 +128,7 @@ def gen_cases(run):
 
 def _loader_case(rng, k=0):
     s1 = rng.randrange(2 ** 40)
-    return {"kind": "loader", "top": G.gen_probe_stack(rng, {2: "bare", 5: "concat_collators"}.get(k % 8)), "build_seed": rng.randrange(2 ** 31), "W": [1, 2, 3, 1, 2, 4][k % 6],      # every worker count in every run, a single worker included
+    return {"kind": "loader", "top": G.gen_probe_stack(rng, {2: "bare", 5: "concat_collators", 4: "edit", 7: "shared_cfg"}.get(k % 8)), "build_seed": rng.randrange(2 ** 31), "W": [1, 2, 3, 1, 2, 4][k % 6],      # every worker count in every run, a single worker included
             
             "B": rng.choice([1, 2, 2, 3]), "torch_seed": [s1, s1 + 1 + rng.randrange(2 ** 40)], "base": [rng.randrange(2 ** 40)],
             "parent_hook": [None, 0, None][k % 3], "parent_samples": [None, 1, 3, None][k % 4], "idx_seed": rng.randrange(10 ** 6)}
@@ -348,6 +357,91 @@ def observe_sim(spec, shift, stats):
     return col.found + findings, len(live)
 
 
+# ------------------------------------------------------------------------------------------------ other interpreter
+def fingerprint(spec):
+    """per-worker streams of a sim spec as plain data (recomputed in a child interpreter with another hash salt):
+    {"w<rank>": {"gens": {place: digest of the next raw outputs after the hook}, "out": digest of samples + collated batches}}"""
+    import hashlib
+    top, W = spec["top"], spec["W"]
+    col = _Collector()
+    _seed_globals(spec["build_seed"])
+    built = S.build_stack(top)
+    kw = S.hook_kwargs_for(top)
+    if spec.get("parent_hook") is not None:
+        _seed_globals(spec["build_seed"] + 1)
+        built.dataset.worker_init_fn(spec["parent_hook"], **kw)
+    if not _parent_samples(col, built.dataset, spec):
+        raise RuntimeError(col.found[-1]["what"][:300])
+    n = len(built.dataset)
+    r = pyrandom.Random(spec["idx_seed"])
+    idxs = [r.randrange(n) for _ in range(spec["K"])]
+    interleaved = top["k"] == "interleaved"
+    if interleaved:
+        sizes = [len(p[0]) for p in built.parts]
+        idxs = [sum(sizes[:j]) + r.randrange(sizes[j]) for j in range(len(sizes))] + idxs[:max(1, spec["K"] - len(sizes))]
+    out = {}
+    for rank in range(W):
+        ds, coll = copy.deepcopy((built.dataset, built.collate))
+        with S.simulated_worker(rank, W, spec["base"][0], ds):
+            ds.worker_init_fn(rank, **kw)
+            gens = {e.path: hashlib.sha1(repr(e.raw()).encode()).hexdigest()[:16] for e in S.census(ds)}
+            samples, collated = _draw_samples(col, ds, coll, idxs, spec["B"], interleaved)
+            if samples is None:
+                raise RuntimeError(col.found[-1]["what"][:300])
+        out[f"w{rank}"] = {"gens": gens, "out": hashlib.sha1(repr((samples, collated)).encode()).hexdigest()[:16]}
+    return out
+
+
+def finalize(run):
+    """clause 'the same worker seed reproduces the same stream' across interpreter instances: the streams of a few stacks with
+    registered collators are recomputed in ONE child interpreter started with another PYTHONHASHSEED and compared"""
+    import json
+    import subprocess
+    import sys
+    specs = getattr(run, "_c09_xproc", [])
+    if not specs:
+        return
+    mine = []
+    for spec in specs:
+        try:
+            mine.append(fingerprint(spec))
+        except Exception as e:  # noqa: BLE001 - such a stack is reported by its own case
+            mine.append({"error": str(e)})
+    env = dict(os.environ, PYTHONHASHSEED=str(1 + (run.seed * 7919 + 4242) % 4000000000))
+    if env["PYTHONHASHSEED"] == os.environ.get("PYTHONHASHSEED"):
+        env["PYTHONHASHSEED"] = "97"
+    try:
+        p = subprocess.run([sys.executable, "-m", "kdv.h09_child"], input=json.dumps(specs), capture_output=True, text=True,
+                           cwd=str(core.VERIF), env=env, timeout=600)
+        line = next((ln for ln in p.stdout.splitlines() if ln.startswith("C09CHILD ")), None)
+        theirs = json.loads(line[len("C09CHILD "):]) if line else None
+    except Exception as e:  # noqa: BLE001 - infrastructure: not an observation of the repository
+        theirs = None
+        run.notes["xproc_child_problem"] = [f"{type(e).__name__}: {e}"[:300]]
+    if theirs is None or len(theirs) != len(specs):
+        run.count("xproc_child_failures")
+        return
+    for spec, a, b in zip(specs, mine, theirs):
+        if "error" in a or "error" in b:
+            run.count("xproc_stacks_not_compared")
+            continue
+        run.count("xproc_stacks_compared")
+        if a == b:
+            continue
+        what, owner = "samples / collated batches differ although all generator streams agree", "output"
+        for w in sorted(a):
+            diff = sorted(p_ for p_ in set(a[w]["gens"]) | set(b.get(w, {}).get("gens", {})) if a[w]["gens"].get(p_) != b.get(w, {}).get("gens", {}).get(p_))
+            if diff:
+                _seed_globals(spec["build_seed"])
+                ent = {e.path: e for e in S.census(S.build_stack(spec["top"]).dataset)}
+                owner = _owner_name(ent[diff[0]]) if diff[0] in ent else "unattributed"
+                what = (f"worker (base {spec['base'][0]}, rank {w[1:]}): the generator at `stack{diff[0]}` (held by {owner}) delivers another "
+                        f"stream after worker_init_fn in a second interpreter (PYTHONHASHSEED={env['PYTHONHASHSEED']}) than in this one "
+                        f"({len(diff)} places differ)")
+                break
+        run.violation(f"not-reproducible-across-interpreters:{owner}", f"{what}\nstack: {brief_stack(spec['top'])}", spec)
+
+
 def _raw_values(o, live, skip):
     """value -> place over the next raw outputs of the worker's live generators (one entry per generator object)"""
     out, seen = {}, set()
@@ -478,9 +572,13 @@ def observe_loader(run, spec, shift):
         d, seeds = {}, {}
         for _, log in batches:
             for tag, wid, wseed, v in log:
-                d.setdefault(wid, {}).setdefault(v, tag)
                 seeds[wid] = wseed
                 run.count("loader_draws_observed")
+                if tag.startswith("seeded:"):     # batch of a part served by a seeded wrapper: function of the index, not of the worker
+                    run.count("loader_seeded_sibling_draws")
+                    d.setdefault(wid, {})
+                    continue
+                d.setdefault(wid, {}).setdefault(v, tag)
         return d, seeds
 
     d1, seeds1 = per_worker(runs[0])
@@ -589,6 +687,14 @@ def _stack_cover(run, spec):
         run.count(f"no_mode_wrapper_{spec['kind']}_cases")
         if any(n["k"] == "root" and n.get("collators") for n in S.stack_nodes(top)):
             run.count("no_mode_wrapper_with_collators_cases")
+    if any(n.get("cfg") for n in S.stack_nodes(top)):
+        run.count("seeded_and_unseeded_wrapper_from_one_config_list_cases")
+    edits = [(n.get("late") or {}).get("op") or n["edit"]["mode"] for t in S.stack_trees(top) for n in S.tree_nodes(t)
+             if n["t"] == "compose" and (n.get("edit") or n.get("late"))]
+    for op in edits:
+        run.cover("compose_edit", spec["kind"], op)
+    if edits:
+        run.count(f"compose_edited_after_construction_{spec['kind']}_cases")
     if any(n.get("collate_roots") for n in S.stack_nodes(top)):
         run.count(f"concat_member_root_collators_{spec['kind']}_cases")
     for n in S.stack_nodes(top):
@@ -645,6 +751,9 @@ def _report(run, spec, findings):
 def run_case(run, spec):
     _stack_cover(run, spec)
     if spec["kind"] == "sim":
+        pool = run.__dict__.setdefault("_c09_xproc", [])
+        if len(pool) < run.n(5, 16 * 10) and any(n["k"] == "root" and n.get("collators") for n in S.stack_nodes(spec["top"])):
+            pool.append(spec)
         stats = {}
         with StepBudget(STEP_LIMIT, _codes(run), what="simulated workers of one stack"):
             findings = evaluate_sim(spec, stats)
